@@ -331,8 +331,8 @@ Section Calls.
   Proof.
     unfold exec_direct. apply bal_e_bind; [apply pres_bal_e, pres_vm_find|]. intros fv s1 _ W.
     destruct fv; try (split; [apply R_er_leaked; exact W|reflexivity]).
-    - pose proof (bal_call_fun_framed k s1 2 None f0 args W) as H.
-      destruct (call_fun ev k (push_frame s1 2 None) f0 args) as [v s3|e s3| |w]; cbn [bind]; try exact I; exact H.
+    - pose proof (bal_call_fun_framed k s1 (if is_global f then 4 else 2) None f0 args W) as H.
+      destruct (call_fun ev k (push_frame s1 (if is_global f then 4 else 2) None) f0 args) as [v s3|e s3| |w]; cbn [bind]; try exact I; exact H.
     - destruct (k0 =? ID_DISPLAY); [|exact I].
       apply ctl_R_ok_e; [exact W|reflexivity].
   Qed.
@@ -365,11 +365,11 @@ Section Calls.
     unfold exec_method. destruct root; try (intros _; exact I);
       try (intros W; split; [apply R_er_leaked; exact W|reflexivity]).
     - (* list *)
-      intros W. destruct (hget (push_frame st 2 (Some (VList l))) l) as [[items|?|? ?]|]; try exact I.
-      pose proof (pres_framed_pop st 2 (Some (VList l)) _ W (pres_list_method k (push_frame st 2 (Some (VList l))) l items m args)) as H.
+      intros W. destruct (hget (push_frame st 4 (Some (VList l))) l) as [[items|?|? ?]|]; try exact I.
+      pose proof (pres_framed_pop st 4 (Some (VList l)) _ W (pres_list_method k (push_frame st 4 (Some (VList l))) l items m args)) as H.
       destruct (list_method k _ l items m args); cbn [bind]; try exact I; exact H.
-    - intros W. destruct (hget (push_frame st 2 (Some (VDict l))) l) as [[?|kvs|? ?]|]; try exact I.
-      pose proof (pres_framed_pop st 2 (Some (VDict l)) _ W (pres_dict_method k (push_frame st 2 (Some (VDict l))) l kvs m args)) as H.
+    - intros W. destruct (hget (push_frame st 4 (Some (VDict l))) l) as [[?|kvs|? ?]|]; try exact I.
+      pose proof (pres_framed_pop st 4 (Some (VDict l)) _ W (pres_dict_method k (push_frame st 4 (Some (VDict l))) l kvs m args)) as H.
       destruct (dict_method k _ l kvs m args); cbn [bind]; try exact I; exact H.
     - (* object *)
       destruct (hget st l) as [[?|?|c props]|]; try (intros _; exact I).
